@@ -310,3 +310,33 @@ Definition imageBoxConnect (lookups : list (option (list ip))) (script : list bo
 Definition revocationConnect (allowed : list bstr) (host : bstr) (lookups : list (option (list ip)))
            (script : list bool) : dialOutcome * N * list (option (list ip)) :=
   (revocationDial allowed host (nextAnswer lookups) script, 1, tl lookups).
+
+(* ---------------------------------------------------------------- redirect chains
+   net/http's Client calls CheckRedirect(req, via) before EVERY redirected request, with via = the
+   requests made so far (oldest first), and stops at the first error.  The decision of pdfcpu's two
+   CheckRedirect functions looks at the target URL and at len(via) only -- never at WHERE the redirect
+   comes from (there is no "same origin" shortcut): redirect_ok via target = validate target && len via < max.
+   A chain = the initial URL followed by the Location targets the servers would send; the result is
+   the list of URLs that are actually requested. *)
+Fixpoint revocationFollow (nvia : N) (targets : list (option purl)) : list (option purl) :=
+  match targets with
+  | [] => []
+  | t :: rest => if revocationRedirect nvia t then t :: revocationFollow (nvia + 1) rest else []
+  end.
+
+(* processCurrentCRLs / processCurrentOCSPResponse: validateRevocationURLString(url) first, then client.Get/Post *)
+Definition revocationFetchChain (first : option purl) (targets : list (option purl)) : list (option purl) :=
+  if validateRevocationURL first then first :: revocationFollow 1 targets else [].
+
+Fixpoint imageBoxFollow (targets : list purl) : list purl :=
+  match targets with
+  | [] => []
+  | t :: rest => if imageBoxRedirect t then t :: imageBoxFollow rest else []
+  end.
+
+(* ImageBox.resource: imageBoxRemoteURL(ib.Src) must say (remote, no error), then client.Do *)
+Definition imageBoxFetchChain (first : purl) (targets : list purl) : list purl :=
+  match imageBoxRemoteURL (Some first) with
+  | (true, true) => first :: imageBoxFollow targets
+  | _ => []
+  end.
